@@ -406,6 +406,7 @@ func init() {
 			p.TTL = Pick(r, []time.Duration{3 * p.H, 4 * p.H})
 		}
 		n := 1 + r.Intn(2)
+		blockers, slowDemote := r.Bool(0.25), r.Bool(0.25)
 		for i := 0; i < n; i++ {
 			c := InstCfg{ID: instName(i), Group: "g1", HasHealth: true, MaxHealth: m, HealthRest: "h", PromoteMode: Pick(r, []string{"block", "return"}), V: Pick(r, []time.Duration{0, 4 * p.H})}
 			// script: streaks of length m-1, m, m+1 separated by healthy stretches; 's' = slow
@@ -429,6 +430,26 @@ func init() {
 				if r.Bool(0.3) {
 					sb = append(sb, 'S') // a healthy answer that comes after the check's deadline
 				}
+			}
+			if blockers {
+				// a probe without a deadline: some results come only after HealthBlock, whatever the
+				// context says (the verdict of a tick may then arrive in a later term)
+				c.HealthBlock = Pick(r, []time.Duration{2 * p.H, 5 * p.H, p.TTL + p.H})
+				c.V = Pick(r, []time.Duration{p.H, 2 * p.H})
+				for j := range sb {
+					if r.Bool(0.12) {
+						if sb[j] == 'h' {
+							sb[j] = 'B'
+						} else if sb[j] == 'u' {
+							sb[j] = 'b'
+						}
+					}
+				}
+			}
+			if slowDemote {
+				// the application's OnDemote takes longer than a re-election: the term that follows
+				// begins (and counts) while the previous term's callback is still running
+				c.DemoteDur = p.TTL + r.Dur(2*p.H, 8*p.H)
 			}
 			c.Health = string(sb)
 			p.Insts = append(p.Insts, c)
